@@ -542,6 +542,15 @@ def gen_cases(fmt, backend, tier, seed):
                     for c, n in d_pw:
                         for r in (costs_a[:2] if others else costs_a[:1]):  # variants also meet a second cost
                             add("D", pw(c, n), c, settings_dict(base_salts[0], r, ident, combo), cx, n=n)
+    if fmt == "scrypt":
+        # the $7$ form packs r and p as 30-bit little-endian hash64 numbers: values on both sides of every digit
+        # boundary of that encoding (one digit = 6 bits), each with the other parameter at 1 and the cheapest N
+        for ident in idents:
+            for key in ("block_size", "parallelism"):
+                for v in (63, 64, 65, 4095, 4096) if not (backend == "builtin" and quick) else (63, 64, 4096):
+                    combo = {"block_size": 1, "parallelism": 1}
+                    combo[key] = v
+                    add("D", pw(c0, 9), c0, settings_dict(base_salts[0], costs_a[0], ident, combo), ctx0, n=9)
     if ax["ctx"]:
         # users/realms crossed with every length (the padding / append rules are length dependent)
         for cx in ctx_full:
